@@ -59,6 +59,12 @@ def check_raising(case, tr):
             if s.exc is not s.expected_exc:
                 out.append(Discrepancy('C16/%s/different-exception' % algo, 'step %d: function raised %r, caller got %r' % (i, s.expected_exc, s.exc)))
                 return out, flags, None
+            if s.exc.__cause__ is not getattr(s.exc, '_vcause', None) or s.exc.__suppress_context__ != (getattr(s.exc, '_vcause', None) is not None):
+                out.append(Discrepancy('C16/%s/exception-cause-changed' % algo, 'step %d: the function raised %r with __cause__ %r; the caller received it with __cause__ %r, __suppress_context__ %r' % (
+                    i, s.exc, getattr(s.exc, '_vcause', None), s.exc.__cause__, s.exc.__suppress_context__)))
+                return out, flags, None
+            if getattr(s.exc, '_vcause', None) is not None:
+                flags['raise_with_cause'] = flags.get('raise_with_cause', 0) + 1
             if s.evals != 1:
                 out.append(Discrepancy('C16/%s/raising-call-evaluated-%d-times' % (algo, s.evals), 'step %d' % i))
                 return out, flags, None
@@ -269,13 +275,13 @@ def run_case(case):
     discrs, flags, keep = check_raising(case, tr)
     if not discrs and flags['raise']:
         discrs = check_twin(case, tr, keep)
-    classes += [k for k in ('raise', 'raise_then_overflow') if flags[k]]
+    classes += [k for k in ('raise', 'raise_then_overflow', 'raise_with_cause') if flags.get(k)]
     if flags['raise_then_overflow']:
         nt = ('a', case['module'], case['algo'], case['purge'], case['backend'], flags['ev'])
     return discrs, nt, sorted(set(classes))
 
 
-REQUIRED_CLASSES = ['raise', 'raise_then_overflow', 'hostile_call', 'hostile_then_overflow', 'hostile_archived', 'degraded', 'part:a', 'part:b']
+REQUIRED_CLASSES = ['raise_with_cause', 'raise', 'raise_then_overflow', 'hostile_call', 'hostile_then_overflow', 'hostile_archived', 'degraded', 'part:a', 'part:b']
 
 
 def _t_hash_keyerror(case, discr):
